@@ -65,7 +65,7 @@ type w7hConn struct {
 	MaxInFrame   int         `json:"max_in_frame,omitempty"`
 	StallWrite   int         `json:"stall_write"` // index of the Write call that stalls, <0 never
 	StallUs      int         `json:"stall_us,omitempty"`
-	FailWrite    int         `json:"fail_write"` // index of the Write call that fails, <0 never
+	FailWrite    int         `json:"fail_write"`          // index of the Write call that fails, <0 never
 	FailKeep     int         `json:"fail_keep,omitempty"` // 0 nothing, 1 half, 2 all bytes of the failing write still reach the peer
 	Rechunk      int         `json:"rechunk,omitempty"`   // seed for the second parse with arbitrary chunk boundaries
 }
@@ -140,16 +140,16 @@ type w7hConnState struct {
 	discSeq    int64
 	discCode   uint32
 
-	status       int
-	header       http.Header
-	writeCalls   int
-	deadline     time.Time
-	broken       bool
-	brokenSeq    int64
-	stalling     bool
-	sinceFlush   int
-	discIssued   int64
-	discIssuedCd uint32
+	status          int
+	header          http.Header
+	writeCalls      int
+	deadline        time.Time
+	broken          bool
+	brokenSeq       int64
+	stalling        bool
+	sinceFlush      int
+	discIssued      int64
+	discIssuedCd    uint32
 	healthyAtSettle bool
 	refused         bool
 	sawConnecting   bool
@@ -806,8 +806,8 @@ func w7hRun(s *simrt.Sim, script any, prop string) {
 // ---------------------------------------------------------------- generator
 
 type w7hGenState struct {
-	c      *simrt.Choice
-	nextID int
+	c        *simrt.Choice
+	nextID   int
 	thorough bool
 }
 
